@@ -6,19 +6,23 @@ import (
 	"go/ast"
 	"sort"
 	"strings"
+	"veriftranslator/tutil"
 )
 
-func init() { register("KeyIdGen", genKeyID) }
+func main() {
+	repo, out := tutil.Args()
+	tutil.Emit(out, "KeyIdGen", func(w *bytes.Buffer) error { return genKeyID(repo, w) })
+}
 
 func genKeyID(repo string, w *bytes.Buffer) error {
-	_, f, err := parseFile(repo, "keyid/keyid.go")
+	_, f, err := tutil.ParseFile(repo, "keyid/keyid.go")
 	if err != nil {
 		return err
 	}
-	ints, _ := constValues(f)
+	ints, _ := tutil.ConstValues(f)
 
 	// KeyID struct: Go name, JSON name, Go type, in declaration order.
-	st := findStruct(f, "KeyID")
+	st := tutil.FindStruct(f, "KeyID")
 	if st == nil {
 		return fmt.Errorf("struct KeyID not found")
 	}
@@ -29,10 +33,10 @@ func genKeyID(repo string, w *bytes.Buffer) error {
 			names = append(names, n.Name)
 		}
 		if len(names) == 0 { // embedded
-			names = []string{exprString(fld.Type)}
+			names = []string{tutil.ExprString(fld.Type)}
 		}
 		for _, n := range names {
-			tag, ok := structTag(fld.Tag, "json")
+			tag, ok := tutil.StructTag(fld.Tag, "json")
 			jn := n
 			if ok {
 				jn = strings.Split(tag, ",")[0]
@@ -42,16 +46,16 @@ func genKeyID(repo string, w *bytes.Buffer) error {
 			}
 			gonames = append(gonames, n)
 			jsonnames = append(jsonnames, jn)
-			gotypes = append(gotypes, exprString(fld.Type))
+			gotypes = append(gotypes, tutil.ExprString(fld.Type))
 		}
 	}
 	fmt.Fprintf(w, "(* keyid.KeyID fields in declaration order. *)\n")
-	fmt.Fprintf(w, "Definition keyid_go_names : list str := %s.\n", coqTextList(gonames))
-	fmt.Fprintf(w, "Definition keyid_json_names : list str := %s.\n", coqTextList(jsonnames))
-	fmt.Fprintf(w, "Definition keyid_go_types : list str := %s.\n\n", coqTextList(gotypes))
+	fmt.Fprintf(w, "Definition keyid_go_names : list str := %s.\n", tutil.CoqTextList(gonames))
+	fmt.Fprintf(w, "Definition keyid_json_names : list str := %s.\n", tutil.CoqTextList(jsonnames))
+	fmt.Fprintf(w, "Definition keyid_go_types : list str := %s.\n\n", tutil.CoqTextList(gotypes))
 
 	// requiredKeysByVersion
-	rk, ok := findVar(f, "requiredKeysByVersion").(*ast.CompositeLit)
+	rk, ok := tutil.FindVar(f, "requiredKeysByVersion").(*ast.CompositeLit)
 	if !ok {
 		return fmt.Errorf("requiredKeysByVersion is not a composite literal")
 	}
@@ -61,7 +65,7 @@ func genKeyID(repo string, w *bytes.Buffer) error {
 		if !ok {
 			return fmt.Errorf("requiredKeysByVersion: unexpected element")
 		}
-		ver, ok := evalInt(kv.Key, 0, ints)
+		ver, ok := tutil.EvalInt(kv.Key, 0, ints)
 		if !ok {
 			return fmt.Errorf("requiredKeysByVersion: non-constant key")
 		}
@@ -75,18 +79,18 @@ func genKeyID(repo string, w *bytes.Buffer) error {
 			if !ok {
 				return fmt.Errorf("requiredKeysByVersion: non-literal key name")
 			}
-			s, err := unquote(bl)
+			s, err := tutil.Unquote(bl)
 			if err != nil {
 				return err
 			}
 			keys = append(keys, s)
 		}
-		rows = append(rows, fmt.Sprintf("(%d%%N, %s)", ver, coqTextList(keys)))
+		rows = append(rows, fmt.Sprintf("(%d%%N, %s)", ver, tutil.CoqTextList(keys)))
 	}
-	fmt.Fprintf(w, "Definition required_keys_by_version : list (N * list str) := %s.\n\n", coqList(rows))
+	fmt.Fprintf(w, "Definition required_keys_by_version : list (N * list str) := %s.\n\n", tutil.CoqList(rows))
 
 	// sanityCheckerByVersion keys
-	sc, ok := findVar(f, "sanityCheckerByVersion").(*ast.CompositeLit)
+	sc, ok := tutil.FindVar(f, "sanityCheckerByVersion").(*ast.CompositeLit)
 	if !ok {
 		return fmt.Errorf("sanityCheckerByVersion is not a composite literal")
 	}
@@ -96,7 +100,7 @@ func genKeyID(repo string, w *bytes.Buffer) error {
 		if !ok {
 			return fmt.Errorf("sanityCheckerByVersion: unexpected element")
 		}
-		v, ok := evalInt(kv.Key, 0, ints)
+		v, ok := tutil.EvalInt(kv.Key, 0, ints)
 		if !ok {
 			return fmt.Errorf("sanityCheckerByVersion: non-constant key")
 		}
@@ -107,7 +111,7 @@ func genKeyID(repo string, w *bytes.Buffer) error {
 	for _, v := range vers {
 		vs = append(vs, fmt.Sprintf("%d%%N", v))
 	}
-	fmt.Fprintf(w, "Definition sanity_versions : list N := %s.\n\n", coqList(vs))
+	fmt.Fprintf(w, "Definition sanity_versions : list N := %s.\n\n", tutil.CoqList(vs))
 
 	for _, c := range []struct{ coq, gon string }{
 		{"default_version", "DefaultVersion"},
